@@ -604,7 +604,7 @@ func c12Chain(w *World, r *Report) {
 				switch s.Kind {
 				case "nil":
 					// only where there is no next element
-					if !onlyVia(fn, s.At, func(f Fact) bool {
+					if !srcOnlyVia(fn, s, func(f Fact) bool {
 						return f.Kind == FNil && (pathIs(f.V, "head") || pathIs(f.V, "head", "next"))
 					}) {
 						ok, msg = false, "Unwrap can return nil although a next element exists"
